@@ -97,8 +97,8 @@ func refJSONString(body string, quote rune) (string, bool) {
 }
 
 var c11StringUnits = []string{
-	"a", "é", "䑁", "😀", " ", "'", "$", ".", "`", "/", `\"`, `\\`, `\/`, `\b`, `\f`, `\n`, `\r`, `\t`,
-	`A`, `é`, `\u0000`, `😀`, `\ud83d`, `\ude00`, `\u12`, `\uZZZZ`, `\q`, `\`,
+	"a", "é", "䑁", "😀", " ", "'", "$", ".", "`", "/", "*", "/*", "*/", "~>", ":=", "..", `\"`, `\\`, `\/`, `\b`, `\f`, `\n`, `\r`, `\t`,
+	`\u0041`, `\u00e9`, `\u0000`, `\uD83D\uDE00`, `\ud83d`, `\ude00`, `\ufffd`, `\uFFFF`, `\ud7ff`, `\ue000`, `\u12`, `\uZZZZ`, `\q`, `\`,
 }
 
 var reJSONNumber = regexp.MustCompile(`^-?(0|[1-9][0-9]*)(\.[0-9]+)?([eE][+-]?[0-9]+)?$`)
@@ -126,7 +126,7 @@ func c11CheckOn(x *explore.Ctx, text string, want interface{}, wantOK bool, inpu
 			if got.Kind != impl.CompileError {
 				bad = "a compile error (the text is not a JSON text: malformed escape, unpaired surrogate or number out of range)"
 			}
-		case got.Kind != impl.Value || !impl.Equal(want, got.Val):
+		case got.Kind != impl.Value || !impl.Equal(want, got.Val) || !c11SameZeroSigns(want, got.Val):
 			bad = "value " + impl.Render(want)
 		default:
 			nontrivial = true
@@ -142,6 +142,37 @@ func c11CheckOn(x *explore.Ctx, text string, want interface{}, wantOK bool, inpu
 		x.Nontrivial()
 	}
 	x.Sample(func() string { return text })
+}
+
+// c11SameZeroSigns: a number literal denotes the nearest double, so -0 denotes
+// negative zero (as it does for a JSON parser); values are already known to be equal.
+func c11SameZeroSigns(a, b interface{}) bool {
+	switch x := a.(type) {
+	case float64:
+		y, ok := b.(float64)
+		return !ok || x != 0 || math.Signbit(x) == math.Signbit(y)
+	case []interface{}:
+		y, ok := b.([]interface{})
+		if !ok || len(x) != len(y) {
+			return true
+		}
+		for i := range x {
+			if !c11SameZeroSigns(x[i], y[i]) {
+				return false
+			}
+		}
+	case map[string]interface{}:
+		y, ok := b.(map[string]interface{})
+		if !ok {
+			return true
+		}
+		for k, v := range x {
+			if !c11SameZeroSigns(v, y[k]) {
+				return false
+			}
+		}
+	}
+	return true
 }
 
 // c11Value builds a JSON value through the chooser and renders it with a
@@ -210,7 +241,6 @@ func init() {
 			"texts with malformed escapes, unpaired surrogates or out-of-range numbers must fail to compile",
 		Assumptions: []string{
 			"number-like texts that JSON itself rejects (leading zeros, bare dots) are outside the statement and only checked for totality by C08",
-			"-0 and 0 are the same number",
 		},
 		Phases: []explore.Phase{
 			{Name: "strings", Quick: []int{0, 1, 2, 3}, Thorough: []int{0, 1, 2, 3, 4, 5}, Run: func(c *explore.Chooser, x *explore.Ctx, size int) {
